@@ -1133,7 +1133,8 @@ class Client():
                                       ('status', self.respondent.status),
                                       ('reason', self.respondent.reason),
                                       ('headers', copy.copy(self.respondent.headers)),
-                                      ('body', self.respondent.body),
+                                      # own copy, the respondent reuses its bytearray in place
+                                      ('body', bytearray(self.respondent.body)),
                                       ('data', self.respondent.data),
                                       ('request', request),
                                       ('errored', self.respondent.errored),
